@@ -1,2 +1,14 @@
+"""Imported premises of C07: integration rule (C04), event times (C06), per-unit conversion of the benchmark models' data (C11) and
+the declared bases of their parameters."""
+from contracts.packutil import run_contracts
+
+
 def add_obligations(pack, tier, seed):
-    pass
+    from contracts import C04, fn_tds as T, fn_pu, fn_decl as D
+    pack.assume('imported premises are re-verified here under the id C07 from the same contracts as C04 / C06 / C11; the generated '
+                'code and Jacobians of GENCLS, Line, Bus, PQ, PV, Slack, Toggle are those of C02 / C03 (all models are checked there)')
+    items = C04.items('C07')
+    items += [(T.calc_h('C07'), T.WIT_F10, T.replay_calc_h), (T.do_switch('C07'), None, T.replay_do_switch)]
+    items += [(fn_pu.calc_pu_coeff('C07'),), (fn_pu.set_pu_coeff('C07'),)]
+    items += [(D.declaration('C07', *D.GENBASE),), (D.declaration('C07', *D.LINE),)]
+    run_contracts(pack, items)
